@@ -202,6 +202,7 @@ func (h *payloadHook) After(c *vos.Call, err error) {}
 func TestCheck(t *testing.T) {
 	env := report.FromEnv()
 	rep := env.New("C05")
+	defer rep.Guard(env)
 	rep.Assumptions = []string{
 		"confidentiality is decided as the statement words it: no occurrence of a marker value raw, base64 (std/url, any alignment), hex or JSON-escaped in any file the server writes; cryptographic strength is not a model-checking question",
 		"wholesale replacement of the file by an earlier valid snapshot of the same database is excluded by the property",
@@ -362,7 +363,7 @@ type wrapped struct {
 // tamper: bit flips, truncations, field swaps, foreign keys.
 func tamper(t *testing.T, env *report.Env, rep *report.Report, base string) {
 	sec := rep.Add(&report.Section{Name: "tamper-evidence", Engine: "fsx", Exhaustive: true, Extra: map[string]int64{},
-		Rule: "for saved database files of several shapes: every single-bit flip, every truncation length, every swap of the Version/DEK/DB fields with a second valid database (same and different key), and opening with a foreign key; db.Open must fail or yield exactly the original contents; non-trivial = altered files that still parse as JSON (so the decision is made by the cryptographic layer)"})
+		Rule: "for saved database files of several shapes: every single-bit flip, every truncation length, every swap of the Version/DEK/DB fields with a second valid database (same and different key), and opening with a foreign key; each altered file is opened alone in a fresh directory and again in place in the directory where the code built the database (next to whatever else the code left there); db.Open must fail or yield exactly the original contents; non-trivial = altered files that still parse as JSON (so the decision is made by the cryptographic layer)"})
 	kekA, kekB := hx.NewKEK(), hx.NewKEK()
 	mk := func(dir string, kek tink.AEAD, hist []Op) (string, string) {
 		os.MkdirAll(dir, 0o700)
@@ -389,8 +390,22 @@ func tamper(t *testing.T, env *report.Env, rep *report.Report, base string) {
 	tdir := filepath.Join(base, "tamper")
 	os.MkdirAll(tdir, 0o700)
 	tp := filepath.Join(tdir, "db")
+	// Every altered file is opened twice: as the only file of a fresh directory, and in place, in the
+	// directory where the code built the database (so whatever else the code keeps next to the database
+	// is still there when the damaged file is opened).
+	var tryAt func(where, kind string, fileIdx int, detail string, data []byte, kek tink.AEAD, orig string)
 	try := func(kind string, fileIdx int, detail string, data []byte, kek tink.AEAD, orig string) {
+		tryAt("", kind, fileIdx, detail, data, kek, orig)
+		tryAt(" (damaged in place)", kind, fileIdx, detail, data, kek, orig)
+	}
+	tryAt = func(where, kind string, fileIdx int, detail string, data []byte, kek tink.AEAD, orig string) {
 		sec.Evaluations++
+		tp := tp
+		if where != "" {
+			tp = filepath.Join(base, fmt.Sprintf("A%d", fileIdx), "db")
+			sec.Extra["opened_in_place"]++
+			detail += where
+		}
 		os.WriteFile(tp, data, 0o600)
 		d, err := db.Open(tp, kek, hx.Discard())
 		var w wrapped
